@@ -1535,7 +1535,7 @@ impl CanonicalizeContext {
 			}
 
 			let following_siblings = leaf.following_siblings();
-			if following_siblings.is_empty() {
+			if following_siblings.is_empty() || is_argument_of_parent(leaf) {
 				return None;
 			}
 
@@ -1559,6 +1559,14 @@ impl CanonicalizeContext {
 			})
 		}
 
+		/// True if the siblings of 'leaf' are the other arguments of the parent (e.g., numerator/denominator, base/script)
+		/// rather than the neighboring tokens in a row -- merging 'leaf' with a sibling would change the number of arguments.
+		fn is_argument_of_parent(leaf: Element) -> bool {
+			let parent = get_parent(leaf);
+			let parent_name = name(&parent);
+			return ELEMENTS_WITH_FIXED_NUMBER_OF_CHILDREN.contains(parent_name) || parent_name == "mmultiscripts";
+		}
+
 		/// Convert "||" to "‖", if in single element or in repeated 'mo's (but not "|x||y|" or "{x ||x|>0}")
 		fn merge_vertical_bars(leaf: Element) -> Option<Element> {
 			assert!(is_leaf(leaf));
@@ -1570,7 +1578,7 @@ impl CanonicalizeContext {
 				return None;
 			}
 			let following_siblings = leaf.following_siblings();
-			if following_siblings.is_empty() {
+			if following_siblings.is_empty() || is_argument_of_parent(leaf) {
 				return None;
 			}
 
